@@ -364,4 +364,25 @@ def run_case(rng, tier, idx):
             if base is None:
                 base = out
             c.expect('field results identical for every number of worker threads and repetition', out == base)
+    if kind == 'shell':
+        # the threaded integration kernels: internal force and tangent of the same state for several thread counts (the partition
+        # changes the summation order, not the integration grid: agreement to 1e-9 of the largest entry)
+        base = None
+        for rep, nthreads in enumerate([1] + [int(v) for v in rng.integers(2, 17, 3)]):
+            s_ = factory()
+            s_.ni_num_cores = nthreads
+            try:
+                f_ = np.asarray(s_.calc_fint(ctx['c'], silent=True), dtype=float)
+                k_ = s_.calc_kT(ctx['c'], silent=True).toarray()
+            except Exception as e:
+                c.info['thread_clause_rejected'] = '%s: %s' % (type(e).__name__, str(e)[:80])
+                break
+            c.hit('thread_reps')
+            if base is None:
+                base = (f_, k_)
+                continue
+            c.judge('shell fint identical (1e-9) for every number of integration threads', float(np.abs(f_ - base[0]).max()), 1e-9 * float(np.abs(base[0]).max()) + 1e-300,
+                    data={'threads': nthreads})
+            c.judge('shell kT identical (1e-9) for every number of integration threads', float(np.abs(k_ - base[1]).max()), 1e-9 * float(np.abs(base[1]).max()) + 1e-300,
+                    data={'threads': nthreads})
     return c
